@@ -378,7 +378,7 @@ func (v *view) sum(filter *Row, bitDepth uint) (sum int64, count uint64, err err
 
 // min returns the min and count of a field.
 func (v *view) min(filter *Row, bitDepth uint) (min int64, count uint64, err error) {
-	var minHasValue bool
+	var hasValue bool
 	for _, f := range v.allFragments() {
 		fmin, fcount, err := f.min(filter, bitDepth)
 		if err != nil {
@@ -389,15 +389,9 @@ func (v *view) min(filter *Row, bitDepth uint) (min int64, count uint64, err err
 			continue
 		}
 
-		if !minHasValue {
-			min = fmin
-			minHasValue = true
-			count += fcount
-			continue
-		}
-
-		if fmin < min {
-			min = fmin
+		if !hasValue || fmin < min {
+			min, count, hasValue = fmin, fcount, true
+		} else if fmin == min {
 			count += fcount
 		}
 	}
@@ -406,13 +400,20 @@ func (v *view) min(filter *Row, bitDepth uint) (min int64, count uint64, err err
 
 // max returns the max and count of a field.
 func (v *view) max(filter *Row, bitDepth uint) (max int64, count uint64, err error) {
+	var hasValue bool
 	for _, f := range v.allFragments() {
 		fmax, fcount, err := f.max(filter, bitDepth)
 		if err != nil {
 			return max, count, err
 		}
-		if fcount > 0 && fmax > max {
-			max = fmax
+		// Don't consider a max based on zero columns.
+		if fcount == 0 {
+			continue
+		}
+
+		if !hasValue || fmax > max {
+			max, count, hasValue = fmax, fcount, true
+		} else if fmax == max {
 			count += fcount
 		}
 	}
